@@ -38,6 +38,13 @@ def _import_module_from_path(module_name: str, file_path: Path):
     return module
 
 
+def _mutable_envelope(envelope):
+    """Return the envelope with a mutable dict as its value (cbor2>=6 decodes tagged content as immutable)."""
+    if isinstance(envelope, cbor2.CBORTag) and not isinstance(envelope.value, dict) and hasattr(envelope.value, "items"):
+        return cbor2.CBORTag(envelope.tag, dict(envelope.value))
+    return envelope
+
+
 def _import_signer(sign_script: Path) -> SuitEnvelopeSignerBase:
     """Import a signer object from the sign script."""
     module_name = "SuitSignScript_module" + uuid.uuid4().hex
@@ -151,7 +158,7 @@ class RecursiveSigner:
         if not isinstance(dependency_envelope, cbor2.CBORTag):
             raise ValueError(f"Dependency {dependency_name} in {self.envelope_name} is not a valid envelope.")
 
-        return dependency_envelope
+        return _mutable_envelope(dependency_envelope)
 
     def _sign(self):
         self.envelope = self.signer.sign_envelope(
@@ -265,7 +272,7 @@ def load_envelope(input_file: Path) -> cbor2.CBORTag:
     """Load suit envelope."""
     with open(input_file, "rb") as fh:
         envelope = cbor2.load(fh)
-    return envelope
+    return _mutable_envelope(envelope)
 
 
 def save_envelope(output_file: Path, envelope) -> None:
